@@ -1,13 +1,13 @@
 #!/bin/bash
-# Offline setup after a fresh restore: warm the Go build cache for every check (plain and -race
-# builds of the harness against /repo with -tags verif) and build tars2go once.  Nothing is fetched.
-export GOFLAGS=-mod=mod GOPROXY=off GOSUMDB=off GOTOOLCHAIN=local
+# Offline setup after a fresh restore: warm the Go build cache by building every check exactly the
+# way check.sh builds it (hooks on, -race where used, generated code through the overlay).
+# Nothing is fetched.
 HERE="$(cd "$(dirname "${BASH_SOURCE[0]}")" && pwd)"
-cd "$HERE/harness" || exit 1
-B="$(mktemp -d)"; trap 'rm -rf "$B"' EXIT
-go build -tags verif -o "$B/" ./cmd/... || exit 1
-for d in c13 c19 c20; do
-  [ -d "cmd/$d" ] && { go build -tags verif -race -o "$B/$d.race" "./cmd/$d" || exit 1; }
+cd "$HERE" || exit 1
+rc=0
+for d in harness/cmd/c[0-9][0-9]; do
+  id="$(basename "$d" | tr a-z A-Z)"
+  ./check.sh "$id" build || { echo "setup: build of $id failed"; rc=1; }
 done
-(cd /repo/tars/tools/tars2go && go build -o "$B/tars2go" .) || exit 1
-echo "setup ok"
+[ $rc = 0 ] && echo "setup ok"
+exit $rc
